@@ -33,6 +33,14 @@ def transformations(sc):
         T["bund_params_off"] = lambda s: upd(s, "field", z_bund=0.3, bund_water=55)
     if not field.get("curve_number_adj"):
         T["cn_pct_without_flag"] = lambda s: upd(s, "field", curve_number_adj_pct=25)
+    # the same for the fallow field management (used on days outside the growing season)
+    fallow = sc.get("fallow") or {}
+    if not fallow.get("mulches"):
+        T["fallow_mulch_params_off"] = lambda s: upd(s, "fallow", mulch_pct=85, f_mulch=0.8)
+    if not fallow.get("bunds"):
+        T["fallow_bund_params_off"] = lambda s: upd(s, "fallow", z_bund=0.2, bund_water=35)
+    if not fallow.get("curve_number_adj"):
+        T["fallow_cn_pct_without_flag"] = lambda s: upd(s, "fallow", curve_number_adj_pct=20)
     # parameters of non-selected strategies
     other = {}
     if m != 1:
@@ -110,7 +118,9 @@ def run(tier, seed):
              S("Tomato", seed=seed + 6, regime="monsoon", soil_spec=L.LAYERED_SOILS["low_ksat"], iwc={"value": ["FC", "SAT"], "depth_layer": [1, 2]}, off_season=True, lead=12),
              # irrigation that wets only part of the surface (so that surface-cover features interact with it), dry weather
              S("Maize", "Loam", seed=seed + 7, regime="arid", irr={"method": 2, "kw": {"IrrInterval": 6, "WetSurf": 30, "AppEff": 80}}),
-             S("Potato", "SandyLoam", seed=seed + 8, regime="arid", irr={"method": 1, "kw": {"SMT": [70] * 4, "WetSurf": 50}}, field={"bunds": True, "z_bund": 0.05})]
+             S("Potato", "SandyLoam", seed=seed + 8, regime="arid", irr={"method": 1, "kw": {"SMT": [70] * 4, "WetSurf": 50}}, field={"bunds": True, "z_bund": 0.05}),
+             # long fallow periods with rain (off-season simulated, start well before planting): the fallow management matters
+             S("Wheat", "ClayLoam", seed=seed + 9, regime="wet", off_season=True, lead=45, seasons=2, events=L.storm_events(2001, (1, 20), (90, 60, 120)))]
     if tier == "thorough":
         bases += [S(c, rnd.choice(L.SOILS), seed=rnd.randrange(10 ** 6), irr=rnd.choice([None, {"method": 1, "kw": {"SMT": [50] * 4}}, {"method": 5, "kw": {"depth": 3}}]),
                     off_season=rnd.random() < 0.5, events=rnd.choice([None, L.storm_events(2001, (4, 20))]))
